@@ -266,6 +266,52 @@ fn check(pf: Prefill, script: &[Op]) -> Result<String, String> {
     if nums.len() != reg_after.len() {
         return Err(format!("duplicate type numbers after recycling: {:?}", reg_after));
     }
+    // generations: the known UUID types lie dormant for one generation (a snapshot built from
+    // the recycled builder without any item of theirs, sent over the wire), and are used again
+    // in the next one - which must still round-trip and answer lookups
+    {
+        let mut w: Vec<Warning> = Vec::new();
+        let mut dormant_b = s2.recycle();
+        dormant_b.add_item(TypeId::Ordinal(1), 77, &[1]).map_err(|e| format!("dormant generation: {:?}", e))?;
+        let dormant = dormant_b.finish();
+        let mut di = vec![0i32; cap];
+        let dn = dormant.write_to_ints(&mut tmp, &mut di).map_err(|_| "capacity".to_string())?.len();
+        let mut dormant_rx = Snap::empty();
+        dormant_rx.read_from_ints(&mut w, &di[..dn]).map_err(|e| format!("reading the dormant generation fails: {:?}", e))?;
+        if observe(&dormant_rx) != observe(&dormant) {
+            return Err("dormant generation: copy differs from the original".into());
+        }
+        for (which, gen) in [("sender-side", dormant), ("received", dormant_rx)] {
+            let mut b3 = gen.recycle();
+            let mut expect: Vec<(TypeId, u16, Vec<i32>)> = Vec::new();
+            for (k, uu) in u.iter().enumerate() {
+                b3.add_item(TypeId::Uuid(*uu), 3, &[k as i32, 5]).map_err(|e| format!("third generation ({}) refuses a UUID type: {:?}", which, e))?;
+                expect.push((TypeId::Uuid(*uu), 3, vec![k as i32, 5]));
+            }
+            let s3 = b3.finish();
+            let mut i3 = vec![0i32; cap];
+            let n3 = s3.write_to_ints(&mut tmp, &mut i3).map_err(|_| "capacity".to_string())?.len();
+            let mut rx3 = Snap::empty();
+            rx3.read_from_ints(&mut w, &i3[..n3]).map_err(|e| format!("third generation ({}): reading the written snapshot fails: {:?}", which, e))?;
+            if vp_snap::snap_items(&rx3) != vp_snap::snap_items(&s3) || rx3.crc() != s3.crc() {
+                return Err(format!("third generation ({}): copy differs from the original", which));
+            }
+            for (t, id, d) in &expect {
+                if rx3.item(*t, *id) != Some(&d[..]) || s3.item(*t, *id) != Some(&d[..]) {
+                    return Err(format!("third generation ({}): lookup of {:?} fails", which, t));
+                }
+            }
+            let reg3 = raw_registry(&i3[..n3])?;
+            for (num, data) in &expect_known {
+                if !reg3.iter().any(|(n, d)| n == num && d == data) {
+                    return Err(format!("third generation ({}): UUID type number {} changed or was lost: {:?}", which, num, reg3));
+                }
+            }
+        }
+        if !w.is_empty() {
+            return Err(format!("warnings in later generations: {:?}", w));
+        }
+    }
     let nuuid = reg_before.len();
     Ok(format!("ok:items{}:uuid-types{}:refused{}", orig.len.min(4), nuuid, refused.min(2)))
 }
@@ -424,7 +470,7 @@ fn main() {
         .reduce(LocalClasses::new, |a, b| a.merge(b));
     run.merge_classes(lc);
     run.finish(
-        &format!("all builder scripts of length <= {} over add_item(type in {{ordinal 1, ordinal 2, 3 UUID types}}, id in {{0,1,65535}}, data in {{[],[7],[1,2,3]}}) (an add the builder refuses leaves the reference map unchanged and the builder stays in use): written to bytes and ints, read back, compared through items(), item(type,id) for every key of the alphabet and crc(); copies obtained by delta from the empty snapshot and from the script prefix; the wire forms read again into objects that already hold the same / another snapshot; received copy recycled (known UUID types keep their number, a new one gets a fresh one); item-count and size limit families; every script of length <= {} on a builder prefilled to 0..48 bytes below the 64 KiB limit or to 1020..1024 items", depth, ldepth),
+        &format!("all builder scripts of length <= {} over add_item(type in {{ordinal 1, ordinal 2, 3 UUID types}}, id in {{0,1,65535}}, data in {{[],[7],[1,2,3]}}) (an add the builder refuses leaves the reference map unchanged and the builder stays in use): written to bytes and ints, read back, compared through items(), item(type,id) for every key of the alphabet and crc(); copies obtained by delta from the empty snapshot and from the script prefix; the wire forms read again into objects that already hold the same / another snapshot; received copy recycled (known UUID types keep their number, a new one gets a fresh one), then two more generations in which the UUID types lie dormant and are used again; item-count and size limit families; every script of length <= {} on a builder prefilled to 0..48 bytes below the 64 KiB limit or to 1020..1024 items", depth, ldepth),
         true,
     );
 }
